@@ -3,6 +3,7 @@
 //! real clock (`RealTime::now`). This is ordinary testing (no proof, no scheduler control); it exists because
 //! the harness cannot execute those two pieces of code. Prints one line per scenario and `SMOKE OK`, or
 //! `SMOKE FAIL <scenario>: <what>` and exits 1. `smoke <iterations>`.
+mod lin;
 use lockable::{AsyncLimit, LockPool, LockableHashMap, LockableLruCache, SyncLimit};
 use std::sync::atomic::{AtomicBool, AtomicU64, Ordering};
 use std::sync::{mpsc, Arc};
@@ -422,6 +423,21 @@ fn wakeup() -> Result<String, String> {
 }
 
 fn main() {
+    let args: Vec<String> = std::env::args().collect();
+    if args.get(1).map(|s| s.as_str()) == Some("lin") {
+        // smoke lin <seed> <histories> <out file>: recorded real-thread histories for /verif/build/lincheck
+        let seed: u64 = args.get(2).and_then(|s| s.parse().ok()).unwrap_or(1);
+        let count: u64 = args.get(3).and_then(|s| s.parse().ok()).unwrap_or(300);
+        let out = args.get(4).cloned().unwrap_or_else(|| "lin.txt".into());
+        match lin::main(seed, count, &out) {
+            Ok(s) => println!("LIN OK {}", s),
+            Err(e) => {
+                println!("LIN FAIL {}", e);
+                std::process::exit(1)
+            }
+        }
+        return;
+    }
     let iters: u64 = std::env::args().nth(1).and_then(|s| s.parse().ok()).unwrap_or(2000);
     with_watchdog("hashmap-blocking", 60, move || hashmap_blocking(iters));
     with_watchdog("lru-mixed", 60, move || lru_mixed(iters));
